@@ -320,7 +320,7 @@ def grid(draw, p=None):
         el.append({"t": "gen", "bus": sb, "p_mw": 0.0, "vm_pu": draw(q(0.98, 1.04, nd=3)), "slack": True})
     else:
         el.append({"t": "ext_grid", "bus": sb, "vm_pu": draw(q(0.98, 1.04, nd=3)), "va_degree": 0.0})
-    if p["second_slack"] and draw(st.integers(0, 4)) == 0:
+    if p["second_slack"] and draw(st.integers(0, 4 if p["second_slack"] is True else int(p["second_slack"]) - 1)) == 0:
         li = draw(st.integers(0, len(levels) - 1))
         b2 = draw(st.sampled_from(level_buses[li]))
         d = {"t": "ext_grid", "bus": b2, "vm_pu": draw(q(0.98, 1.04, nd=3)), "va_degree": acc[li]}
